@@ -6,6 +6,9 @@ formatted text is decided here, per input, by running the REAL formatter twice.
 
 Oracle: for every input x (parseable or not): format(format(x)) == format(x); and
 `garden format --check f` exits 0 on a file holding format(x) (CLI, sample).
+Keys (complete fixed set, see KEYS / classify): C18/second-pass-failed, C18/carriage-return,
+C18/second-pass-unattributed, C18/second-pass-<phase>[-parse-error] for phase in wrap, spans, indent,
+blanks, types, spacing, final, C18/check-rejects-formatter-output, C18/check-with-testing-footer.
 Tie: the Lean phase models reproduce the real intermediate texts (`fmt_trace`) of every input,
 including the unparseable ones (the C17 run does the same for parseable inputs with token marks).
 """
@@ -38,14 +41,30 @@ def damage(rng, src):
 
 PHASES = ["wrap", "spans", "indent", "blanks", "types", "spacing", "final"]
 
+# The complete, fixed set of keys this check can emit. Every observable failure maps to exactly one of
+# them, by mechanism (never by the random input): see `classify`.
+KEYS = (["C18/second-pass-failed",            # the formatter does not return on its own output
+         "C18/carriage-return",               # input contains `\r` (str::lines strips one per phase)
+         "C18/second-pass-unattributed",      # outputs differ but no phase of the traced 2nd pass changes its input
+         "C18/check-rejects-formatter-output",  # CLI `format --check` exits non-zero on format(x)
+         "C18/check-with-testing-footer"]       # same, file has a `// args:` reftest footer (CLI strips it first)
+        + ["C18/second-pass-%s%s" % (p, q) for p in PHASES for q in ("", "-parse-error")])
 
-def classify(ctx, src, f1_hex, first_trace):
-    """Key = the first phase that changes the already formatted text in the SECOND pass, qualified by
-    the input class (carriage returns / a line starting inside a string literal / the first pass joined
-    lines with a span edit, which shifts the line numbers its line edits were computed for)."""
-    tr = ctx.garden_batch(["fmt_trace " + f1_hex], shards=1)[0] or ""
-    texts = F.trace_texts(tr)
-    phase = "unknown"
+
+def classify(ctx, src, f1_hex):
+    """Deterministic, total classification of one non-idempotence (format(f1) != f1, f1 = format(src)):
+      1. `\r` anywhere in the input                      -> C18/carriage-return
+      2. p = the first phase of the SECOND pass (fmt_trace on f1) whose output differs from its input;
+         none                                             -> C18/second-pass-unattributed
+      3. f1 has parse errors (or the front end fails)     -> C18/second-pass-<p>-parse-error
+         otherwise                                        -> C18/second-pass-<p>
+    The key depends only on the mechanism (which phase still finds work on formatted text) and on whether
+    the text is a valid program, so a new seed cannot produce a new key for an old mechanism."""
+    if "\r" in src:
+        return "C18/carriage-return"
+    tr, ast = ctx.garden_batch(["fmt_trace " + f1_hex, "ast " + f1_hex], shards=1)
+    texts = F.trace_texts(tr or "")
+    phase = None
     prev = f1_hex
     for p in PHASES:
         if p in texts:
@@ -53,16 +72,11 @@ def classify(ctx, src, f1_hex, first_trace):
                 phase = p
                 break
             prev = texts[p]
-    f1 = unhex(f1_hex)
-    if "\r" in src:
-        q = "-carriage-return"
-    elif F.line_starts_in_string(src) or F.line_starts_in_string(f1):
-        q = "-multi-line-string"
-    else:
-        t1 = F.trace_texts(first_trace or "")
-        joined = "wrap" in t1 and "spans" in t1 and unhex(t1["wrap"]).count("\n") != unhex(t1["spans"]).count("\n")
-        q = "-after-joined-lines" if joined else ""
-    return "C18/second-pass-%s%s" % (phase, q)
+    if phase is None:
+        return "C18/second-pass-unattributed"
+    pa = F.parse_ast(ast)
+    perr = pa is None or pa[1] > 0
+    return "C18/second-pass-%s%s" % (phase, "-parse-error" if perr else "")
 
 
 def run(ctx):
@@ -103,7 +117,7 @@ def run(ctx):
             continue
         if rr[3:] != f1[i]:
             out2 = unhex(rr[3:])
-            key = classify(ctx, s, f1[i], ctx.garden_batch(["fmt_trace " + hx[i]], shards=1)[0])
+            key = classify(ctx, s, f1[i])
             ctx.fail(key, "format(format(x)) != format(x)", origin=o, input=s, first=out1, second=out2,
                      command="garden format f.gdn > g.gdn; garden format g.gdn | diff g.gdn -")
     ctx.cov["programs"] = len(ok)
